@@ -324,6 +324,25 @@ def t_nesting():
     return stats
 
 
+def t_long():
+    """long operand chains and deep nesting (up to 100 / 99), judged against the reference on small and large candidates"""
+    from ..gen import longq
+    stats = Stats()
+    docs = longq.long_docs()
+    cands = [docs[0], docs[3]["b"], {"x": {"a": 1, "b": 2}, "y": {"b": 1}, "z": longq.deep_a(45)}]
+    n = 0
+    rng = random.Random(23)
+    for name, e in longq.long_filters():
+        ast = ["q", "$", [["c", [["f", e]]]]]
+        for j, doc in enumerate(cands):
+            text = Renderer(rng if j else None).query(ast, top=True)
+            judge(stats, ast, doc, text, "long")
+            n += 1
+        stats.nt("long", name)
+    stats.subspaces.append({"name": "filters with 8..100 operands / depth up to 99 / 40 nested filters x 3 candidate sets (8, 150 and 3 candidates)", "size": n, "exhaustive": True})
+    return stats
+
+
 def tasks(tier, seed):
     ts = []
     rows = list(range(len(UNIVERSE)))
@@ -333,6 +352,7 @@ def tasks(tier, seed):
     ts.append({"name": "nesting", "fn": "t_nesting"})
     ts.append({"name": "regex", "fn": "t_regex"})
     ts.append({"name": "numbers", "fn": "t_numbers"})
+    ts.append({"name": "long", "fn": "t_long"})
     n = 1500 if tier == "quick" else 25000
     depth = 3 if tier == "quick" else 4
     for k in range(16):
